@@ -18,7 +18,7 @@ structure EnvOK (env : NsEnv) : Prop where
 
 theorem envOK_sound (env : NsEnv) (h : envOK env = true) : EnvOK env := by
   simp only [envOK, Bool.and_eq_true, beq_iff_eq, List.all_eq_true] at h
-  exact ⟨h.1.1, h.1.2, h.2⟩
+  exact ⟨h.1.1.1.1, h.1.1.1.2, h.1.1.2⟩
 
 /-- the invariant of a prefix-URI map (`d` is the user's default namespace, if any) -/
 structure MapOK (env : NsEnv) (d : Option Str) (M : NsMap) : Prop where
